@@ -143,7 +143,9 @@ class CollectionStore(object):
                 yield doc
 
     def _remove_expired_documents(self):
-        for index in self._ttl_indexes.values():
+        # Iterate over a snapshot: another thread may create or drop a TTL index while an
+        # expiry pass (which takes and releases the lock for every index) is under way.
+        for index in list(self._ttl_indexes.values()):
             self._expire_documents(index)
 
     def _expire_documents(self, index):
